@@ -36,7 +36,8 @@ def budget(tier):
 
 # ---------------------------------------------------------------------- programs
 
-QFAMS = ['Q1', 'Q2', 'Q3', 'Q4', 'Q5', 'Q6', 'Q7']
+BOUNDS = {}   # argument name -> exclusive upper bound for integer arguments that index or count
+QFAMS = ['Q1', 'Q2', 'Q3', 'Q4', 'Q5', 'Q6', 'Q7', 'Q8', 'Q8']
 
 
 def build_q(prog):
@@ -94,6 +95,17 @@ def build_q(prog):
         fc = ev.loop_sum(ev.get(C, 0, i), i)
         fx = ev.loop_concatenate(ev.get(X, 0, i) * fc, i)
         return (fc, fx, ev.InsertAxis(fc, c(2)), ev.loop_concatenate(ev.get(C, 0, i), i)), args
+    if fam == 'Q8':  # argument dependent VIEWS (zero-stride repeat, basic index, slice) of COMPUTED constant intermediates
+        A = const((n + 1, m))
+        v = const((m,))
+        cnt = ev.InRange(ev.Argument('cnt', (), int), c(5))
+        idx = ev.InRange(ev.Argument('idx', (), int), c(n + 1))
+        args['cnt'] = numpy.array(rng.choice([1, 2, 3, 4]))
+        args['idx'] = numpy.array(rng.randrange(n + 1))
+        BOUNDS.update(cnt=5, idx=n + 1)
+        AA = ev.Sin(A) * A      # computed, argument free, not folded by the simplifier
+        vv = ev.Cos(v) + v
+        return (ev.InsertAxis(vv, cnt), ev.get(AA, 0, idx), ev.InsertAxis(ev.Sum(vv), cnt), ev.Sum(AA) + ev.astype(cnt, float), AA), args
     raise ValueError(fam)
 
 
@@ -237,6 +249,10 @@ def make_args(base, k, version, rng_seed):
             v = a + (r.randint(-3, 4, size=a.shape) if (k or version) else 0)
             if name == 'sel':
                 v = a.copy()
+            elif name in BOUNDS:
+                v = (a + (r.randint(0, 7, size=a.shape) if (k or version) else 0)) % BOUNDS[name]
+                if name == 'cnt':
+                    v = numpy.maximum(v, 1)
         elif a.dtype.kind == 'c':
             v = a + ((r.randint(-8, 9, size=a.shape) / 4 + 1j * r.randint(-8, 9, size=a.shape) / 4) if (k or version) else 0)
         else:
@@ -271,7 +287,7 @@ class LineBomb:
 
 # ---------------------------------------------------------------------- execution: compiled function histories
 
-def run_compiled(case):
+def run_compiled(case, skip_first_run_views=False):
     from nutils import evaluable, parallel
     prog, cfg = case['prog'], case['cfg']
     funcs, base = build_prog(prog)
@@ -375,15 +391,17 @@ def run_compiled(case):
             if events_between and ncalls > 1:
                 nontrivial = True
             events_between = 0
-            returned.append((_flat(res), [v for v in passed.values() if isinstance(v, numpy.ndarray)]))
+            returned.append((_flat(res), [v for v in passed.values() if isinstance(v, numpy.ndarray)], ncalls))
             probe('call_' + how)
         elif kind == 'scribble':
             if not returned:
                 continue
-            arrays, argarrays = returned[op['j'] % len(returned)]
+            arrays, argarrays, callno = returned[op['j'] % len(returned)]
             allargs = argarrays + [v for d in pooldicts.values() for v in d.values()]
             n = 0
             for arr in arrays:
+                if skip_first_run_views and callno == 1 and isinstance(arr, numpy.ndarray) and arr.base is not None:
+                    continue   # causality probe for the known finding (see run_case)
                 if isinstance(arr, numpy.ndarray) and arr.flags.writeable and arr.size and not any(numpy.shares_memory(arr, x) for x in allargs if isinstance(x, numpy.ndarray) and x.size):
                     arr[...] = POISON
                     n += 1
@@ -450,7 +468,7 @@ def run_compiled(case):
                 bad = check_call(res, op['k'], {n: v.copy() for n, v in a.items()}, a)
                 if bad:
                     return finish(bad, log, probes, nontrivial, case)
-                returned.append((_flat(res), list(a.values())))
+                returned.append((_flat(res), list(a.values()), ncalls))
         elif kind == 'call_parallel':
             k = op['k']
             a = pooldicts[k]
@@ -476,7 +494,7 @@ def run_compiled(case):
             log.append(('call_parallel', k, nproc, 'ok' if not bad else bad[0]))
             if bad:
                 return finish(bad, log, probes, nontrivial, case)
-            returned.append((_flat(res), list(a.values())))
+            returned.append((_flat(res), list(a.values()), ncalls))
             events_between += 1
             probe('parallel_call_with_%d_processes' % nproc)
         elif kind == 'gc':
@@ -650,7 +668,15 @@ def run_case(case):
     numpy.seterr(all='ignore')
     with treelog.set(treelog.NullLog()):
         if case['kind'] == 'compiled':
-            return run_compiled(case)
+            res = run_compiled(case)
+            if res.get('vclass') == 'V-result-depends-on-history' and case['cfg'].get('cache'):
+                # Is it the known finding?  Only if the violation disappears when the arrays handed out by the FIRST run that are
+                # views of other arrays are left alone (those are views of constant intermediates taken before they were frozen).
+                res2 = run_compiled(case, skip_first_run_views=True)
+                if res2.get('verdict') == 'pass':
+                    res['vclass'] = 'V-first-run-view-of-unfrozen-constant'
+                    res['detail'] = 'only through a writable view handed out by the first run (before the cached constant it views was frozen): ' + str(res['detail'])
+            return res
         if case['kind'] == 'system':
             return run_system(case)
         return run_basis(case)
